@@ -674,13 +674,19 @@ func pathProp() engine.AnyProp {
 				}
 			case 1:
 				_ = os.Mkdir(filepath.Join(dir, "adir.csv"), 0o755)
-				ch, err := helper.ReadFromCsvFile[RowA](filepath.Join(dir, "adir.csv"), true)
-				if err == nil {
-					// opening a directory succeeds on Linux; reading it must end the stream, not hang
-					res := pipe.Run([][]int{}, pipe.Opts{SpinLimit: 10 * time.Second}, func(_ []<-chan int) []<-chan *RowA { return []<-chan *RowA{ch} })
-					if !res.OK() || len(res.Outs[0]) != 0 {
-						o.Failf("reading a directory as CSV: %s, %d rows", res.Verdict, len(res.Outs[0]))
+				// opening a directory succeeds on Linux; reading it must end the stream, not hang
+				// (the file is opened inside the guarded run: its goroutines must not predate it)
+				res := pipe.Run([][]int{}, pipe.Opts{SpinLimit: 10 * time.Second}, func(_ []<-chan int) []<-chan *RowA {
+					ch, err := helper.ReadFromCsvFile[RowA](filepath.Join(dir, "adir.csv"), true)
+					if err != nil {
+						empty := make(chan *RowA)
+						close(empty)
+						return []<-chan *RowA{empty}
 					}
+					return []<-chan *RowA{ch}
+				})
+				if !res.OK() || len(res.Outs[0]) != 0 {
+					o.Failf("reading a directory as CSV: %s, %d rows", res.Verdict, len(res.Outs[0]))
 				}
 			case 2:
 				repo := asset.NewFileSystemRepository(filepath.Join(dir, "nope"))
